@@ -7,8 +7,10 @@ package c01
 import (
 	"bytes"
 	"encoding"
+	"encoding/binary"
 	"fmt"
 	"hash"
+	"math/bits"
 
 	"github.com/emmansun/gmsm/kdf"
 	"github.com/emmansun/gmsm/sm3"
@@ -22,6 +24,7 @@ func init() {
 	reg.Register("c01.sum", "C01", sumWL)
 	reg.Register("c01.history", "C01", historyWL)
 	reg.Register("c01.kdf", "C01", kdfWL)
+	reg.Register("c01.bigstate", "C01", bigStateWL)
 }
 
 func selftest(x *mon.Ctx) {
@@ -373,6 +376,80 @@ func historyWL(x *mon.Ctx) {
 	}
 }
 
+// bigStateWL: exported states whose byte counter is far beyond what a test can feed (2^29 .. 2^60 bytes absorbed).
+// The state of a short prefix is exported, its length field is raised by a multiple of 64 (the number of pending
+// bytes stays consistent), imported into a fresh object and the message is continued: the digest must be the
+// standard's value for that chaining value and that total length (the reference continues from the same state).
+// This is the only way to reach the high bits of the bit-length field in the finalisation.
+func bigStateWL(x *mon.Ctx) {
+	selftest(x)
+	bases := []uint64{0, 1 << 29, 1<<29 - 64, 1 << 32, 1<<32 - 64, 1<<32 + 1<<29, 1 << 35, 1<<40 + 1<<29, 1 << 56, 1 << 60}
+	for bi, base := range bases {
+		for rep := 0; rep < x.Scale(24, 400); rep++ {
+			c := x.Begin("bigstate byte counter raised by %d (#%d) rep=%d (prefix, continuation from the case PRNG)", base, bi, rep)
+			if c == nil {
+				continue
+			}
+			n := c.R.Intn(200)
+			if rep%3 == 0 {
+				n = []int{0, 1, 55, 56, 63, 64, 119, 120, 127, 128}[c.R.Intn(10)]
+			}
+			prefix := c.R.Bytes(n)
+			c.Class("bigstate/base#%d/nx=%d", bi, n%64)
+			h := sm3.New()
+			h.Write(prefix)
+			st, err := h.(encoding.BinaryMarshaler).MarshalBinary()
+			if err != nil || len(st) != 4+32+64+8 {
+				c.Fail("mismatch", "MarshalBinary: %d bytes, %v", len(st), err)
+				c.End()
+				continue
+			}
+			var v [8]uint32
+			for i := range v {
+				v[i] = binary.BigEndian.Uint32(st[4+4*i:])
+			}
+			pending := append([]byte{}, st[36:36+n%64]...)
+			if got := binary.BigEndian.Uint64(st[100:]); got != uint64(n) {
+				c.Fail("mismatch", "exported state carries length %d after %d bytes", got, n)
+				c.End()
+				continue
+			}
+			total := uint64(n) + base
+			binary.BigEndian.PutUint64(st[100:], total)
+			h2 := sm3.New()
+			h2.Write(c.R.Bytes(c.R.Intn(70)))
+			if !c.Call("UnmarshalBinary", func() { err = h2.(encoding.BinaryUnmarshaler).UnmarshalBinary(st) }) {
+				c.End()
+				continue
+			}
+			if err != nil {
+				c.Fail("reject", "UnmarshalBinary refused a state with byte counter %d (pending %d bytes): %v", total, n%64, err)
+				c.End()
+				continue
+			}
+			more := c.R.Bytes([]int{0, 1, 55, 56, 64, 100, 200}[c.R.Intn(7)])
+			var a, b []byte
+			if c.Call("Write/Sum", func() {
+				a = h2.Sum(nil)
+				h2.Write(more)
+				b = h2.Sum(nil)
+			}) {
+				w0 := refsm3.SumFrom(v, pending, total, nil)
+				w1 := refsm3.SumFrom(v, pending, total, more)
+				c.Eq(fmt.Sprintf("Sum of a state with byte counter %d", total), a, w0[:])
+				c.Eq(fmt.Sprintf("Sum after %d more bytes on a state with byte counter %d", len(more), total), b, w1[:])
+			}
+			// the state exported again carries the advanced counter
+			if st2, err := h2.(encoding.BinaryMarshaler).MarshalBinary(); err == nil && len(st2) == len(st) {
+				if got := binary.BigEndian.Uint64(st2[100:]); got != total+uint64(len(more)) {
+					c.Fail("mismatch", "re-exported state carries byte counter %d, want %d", got, total+uint64(len(more)))
+				}
+			}
+			c.End()
+		}
+	}
+}
+
 // hash wrappers that hide the optimised KDF method from kdf.Kdf
 type hideAll struct{ hash.Hash }
 
@@ -424,6 +501,8 @@ func kdfWL(x *mon.Ctx) {
 	g := mon.NewGuard(1 << 13)
 	defer g.Free()
 	keyLens := []int{1, 31, 32, 33, 95, 96, 97, 128, 129, 224, 225, 256, 257, 300, 511, 512, 1000}
+	// long outputs: the 32-bit block counter beyond one and two bytes (256 blocks = 8192 bytes, 65536 blocks = 2 MiB)
+	longKeyLens := []int{8160, 8161, 8192, 8193, 8448, 16384 + 33, 65536 + 1, 1<<21 - 31, 1<<21 + 1, 1<<21 + 8*32 + 5}
 	maxZ := 200
 	if x.Thorough() {
 		// every output length up to 17 blocks (every remainder class of the 4- and 8-lane loops twice) and the long ones;
@@ -476,6 +555,18 @@ func kdfWL(x *mon.Ctx) {
 			}
 			c.Class("kdf/zmod64=%d/zblocks=%s/out=%s", zl%64, blocksClass(zl), outClass(kl))
 			one(c, zl, kl, hi, len(kdfEntries))
+			c.End()
+		}
+	}
+	for li, kl := range longKeyLens {
+		for _, zl := range []int{0, 7, 55, 59, 60, 64, 131}[:x.Scale(4, 7)] {
+			hi := (li+zl)%2 == 0
+			c := x.Begin("kdf long output len(z)=%d keyLen=%d guard=%s", zl, kl, side(hi))
+			if c == nil {
+				continue
+			}
+			c.Class("kdflong/zmod64=%d/counter-bytes=%d", zl%64, (bits.Len(uint((kl+31)/32))+7)/8)
+			one(c, zl, kl, hi, 2)
 			c.End()
 		}
 	}
